@@ -725,6 +725,51 @@ func runC03(c *Ctx) {
 			}
 		}
 	}
+	// a literal that does not convert is answered 422 (InvalidType / Required …): the conversion functions of the binder
+	// never build the 400-coded parse error (ServeError answers with the code of the first error it is given)
+	for _, fn := range []string{"(*rt/middleware.untypedParamBinder).setFieldValue", "(*rt/middleware.untypedParamBinder).setSliceFieldValue",
+		"(*rt/middleware.untypedParamBinder).tryUnmarshaler", "(*rt/middleware.untypedParamBinder).bindValue", "(*rt/middleware.untypedParamBinder).readFormattedSliceFieldValue"} {
+		sf := p.Fn(fn)
+		if sf == nil {
+			continue
+		}
+		for _, ci := range callsIn(sf, "github.com/go-openapi/errors.NewParseError") {
+			c.obD("R03.7", ci, "conversion-errors-are-422", false, "a value that is not a valid literal of the declared type is refused with a 422 validation error: the value setters never wrap it in a 400 parse error", baseName(fn)+" builds errors.NewParseError (code 400)")
+		}
+	}
+	// the name a binder reports (in every 422 and in Validation.Name) is the declared parameter name: the binder's Name
+	// is written from the parameter's own Name when it is made, and otherwise only where Bind re-labels it for STRUCT
+	// targets (never for the map targets of the routed API, whose parameter table is keyed "<in>#<GoName>")
+	{
+		nW := 0
+		for _, fn := range p.LibFuncs("rt/middleware") {
+			for _, st := range fieldStores(fn, "rt/middleware.untypedParamBinder", "Name") {
+				if st.Parent() != fn {
+					continue
+				}
+				nW++
+				okDecl, _ := allOrigins(st.Val, oFieldLoad(paramPropsT, "Name", nil))
+				what := "an untyped binder is named after the declared parameter (spec name), except where Bind re-labels it with the struct field it binds into"
+				switch {
+				case okDecl:
+					c.obI("R03.7", st, "binder-named-after-declaration", true, what, "")
+				case onlyRootedIn(fn, "(*rt/middleware.UntypedRequestBinder).Bind"):
+					isMapV := func(v ssa.Value) bool {
+						bo, ok := v.(*ssa.BinOp)
+						if !ok {
+							return false
+						}
+						k := asCall(bo.X)
+						return k != nil && calleeName(&k.Call) == "(reflect.Value).Kind"
+					}
+					c.obI("R03.7", st, "binder-named-after-declaration", guardedBy(st, nil, factBool(isMapV, false)), what, "Bind renames the binder for a map target")
+				default:
+					c.obI("R03.7", st, "binder-named-after-declaration", false, what, short(fn.String())+" names the binder "+describe(st.Val)+" for every kind of target: errors of the routed API name the table key instead of the parameter")
+				}
+			}
+		}
+		c.obRF("R03.7", p.Fn("rt/middleware.newUntypedParamBinder"), "binder-gets-a-name", nW >= 1, "the binder's Name is written somewhere", "")
+	}
 	c.min("R03.7", 18)
 
 	// R03.8 bounds
